@@ -190,14 +190,19 @@ pub struct EncOpts {
 	/// the block index sits right behind the header, in front of metadata and tile data (the header names every
 	/// section by offset, so any order is legal; a streaming reader likes the index first)
 	pub index_first: bool,
+	/// some blocks keep their tile index right at the block offset (declared tile-blob length 0) and the blobs in
+	/// a pool behind it; index entries are relative to the block offset, so the reader serves them all the same.
+	/// Not claimed to be the published layout (the harness's own decoder refuses it) — only used where the
+	/// consistency of what the real reader returns is checked.
+	pub pooled_blobs: bool,
 }
 
 impl EncOpts {
 	pub fn random(rng: &mut Rng) -> EncOpts {
-		EncOpts { partial_blocks: rng.chance(0.6), shuffle_blocks: rng.chance(0.6), shuffle_tiles: rng.chance(0.5), dedup: rng.chance(0.5), no_meta: rng.chance(0.25), gaps: rng.chance(0.3), nested_ranges: rng.chance(0.4), index_first: rng.chance(0.3) }
+		EncOpts { partial_blocks: rng.chance(0.6), shuffle_blocks: rng.chance(0.6), shuffle_tiles: rng.chance(0.5), dedup: rng.chance(0.5), no_meta: rng.chance(0.25), gaps: rng.chance(0.3), nested_ranges: rng.chance(0.4), index_first: rng.chance(0.3), pooled_blobs: false }
 	}
 	pub fn plain() -> EncOpts {
-		EncOpts { partial_blocks: false, shuffle_blocks: false, shuffle_tiles: false, dedup: false, no_meta: false, gaps: false, nested_ranges: false, index_first: false }
+		EncOpts { partial_blocks: false, shuffle_blocks: false, shuffle_tiles: false, dedup: false, no_meta: false, gaps: false, nested_ranges: false, index_first: false, pooled_blobs: false }
 	}
 }
 
@@ -273,6 +278,10 @@ fn encode_inner(ts: &TileSet, o: &EncOpts, rng: &mut Rng) -> Vec<u8> {
 		let w = (c1 - c0 + 1) as usize;
 		let h = (r1 - r0 + 1) as usize;
 		let block_offset = out.len() as u64;
+		let pooled = o.pooled_blobs && rng.chance(0.6);
+		// pooled: a slot for the index at the block offset, blobs behind it
+		let idx_slot = if pooled { w * h * 12 + 64 } else { 0 };
+		out.extend(std::iter::repeat(0x55u8).take(idx_slot));
 		let mut index = vec![(0u64, 0u32); w * h];
 		let mut torder: Vec<usize> = (0..tiles.len()).collect();
 		if o.shuffle_tiles {
@@ -311,14 +320,20 @@ fn encode_inner(ts: &TileSet, o: &EncOpts, rng: &mut Rng) -> Vec<u8> {
 			let n = rng.range(1, 64) as usize;
 			out.extend_from_slice(&rng.bytes(n));
 		}
-		let blobs_len = out.len() as u64 - block_offset;
+		let blobs_len = if pooled { 0 } else { out.len() as u64 - block_offset };
 		let mut idx_raw = Vec::with_capacity(index.len() * 12);
 		for (off, len) in &index {
 			idx_raw.extend_from_slice(&off.to_be_bytes());
 			idx_raw.extend_from_slice(&len.to_be_bytes());
 		}
 		let idx = comp::brotli(&idx_raw);
-		out.extend_from_slice(&idx);
+		if pooled && idx.len() <= idx_slot {
+			let at = block_offset as usize;
+			out[at..at + idx.len()].copy_from_slice(&idx);
+		} else {
+			out.extend_from_slice(&idx);
+		}
+		let blobs_len = if pooled && idx.len() > idx_slot { out.len() as u64 - block_offset - idx.len() as u64 } else { blobs_len };
 		let mut rec = vec![z];
 		rec.extend_from_slice(&bc.to_be_bytes());
 		rec.extend_from_slice(&br.to_be_bytes());
